@@ -104,7 +104,7 @@ Print Assumptions threads_independent.
    thread's persisted state changes *)
 Theorem wire_threads_independent : forall p s outbound m v3 flag wi wth wpth fresh f tape,
   fst (snd (step p s (Wire outbound m v3 flag wi wth wpth fresh f tape))) <> RReject ->
-  exists t x, wire_thread p m v3 outbound wi wth wpth fresh = Some t /\ target p m v3 outbound = Some x /\
+  exists t x, wire_thread_s p s m v3 outbound wi wth wpth fresh = Some t /\ target p m v3 outbound = Some x /\
               can p (cur p s t) x = true /\
               forall t', t' <> t -> cur p (fst (step p s (Wire outbound m v3 flag wi wth wpth fresh f tape))) t' = cur p s t'.
 Proof. exact wire_accepted_gen. Qed.
@@ -269,6 +269,16 @@ Example subscribers_nonvacuous :
   let evs := [(true, 6); (false, 6); (true, 7); (false, 7)] in
   let s := bcast_all sc {| reg := seq 0 4; cnt := []; slog := [] |} evs in
   stream_of 0 s = evs /\ stream_of 3 s = evs /\ stream_of 2 s = [(true, 6)] /\ stream_of 4 s = [(false, 6); (true, 7); (false, 7)].
+Proof. vm_compute. repeat split. Qed.
+
+(* introduce: the instance id stored with a thread's metadata comes first, then the pthid, then the thid: after the
+   request on thread 1 was continued with recipients, a response with thid 1 and pthid 2 belongs to instance 1 *)
+Example metadata_precedence_nonvacuous :
+  let ops := [Wire false 1 false false (Some 8) (Some 1) None 900 nofault []; Continue 0 1 nofault [Some 0]] in
+  let s := final intro_proto s0 ops in
+  wire_thread_s intro_proto s0 2 false false (Some 9) (Some 1) (Some 2) 901 = Some 2 /\
+  wire_thread_s intro_proto s 2 false false (Some 9) (Some 1) (Some 2) 901 = Some 1 /\
+  wire_thread_s intro_proto s 2 false true (Some 9) (Some 1) (Some 2) 901 = Some 2.
 Proof. vm_compute. repeat split. Qed.
 
 (* guarded histories WITH faults: present-proof prover whose presentation fails to send (abandoned, done never
